@@ -1,2 +1,45 @@
-From BMC Require Import Base.
-Theorem C04_placeholder : True. Proof. exact I. Qed.
+(* C04 — only authentic packets addressed to this session are accepted as
+   responses.  [session_verdict s o bs]: how the retry closure of an in-session
+   command classifies a received datagram ([VFinal m]: the command completes
+   with message m).  [s_sign s] is the negotiated integrity algorithm keyed
+   with K1, [s_dec s] AES decryption under K2[0..16). *)
+From BMC Require Import Base Prim Layers Layers2 Serialize Packet Conn ConnProofs AcceptProofs.
+
+Theorem C04_accept_sound : forall s o bs m,
+  session_verdict s o bs = VFinal m ->
+  exists r w, decode_rmcp rmcp_zero bs = Ok r /\ decode_v2session (s_sign s) v2session_zero (rm_payload r) = Ok w /\
+    v2_authenticated w = true /\ v2_id w = s_local_id s /\
+    (exists k, (k <= length (rm_payload r))%nat /\ v2_signature w = skipn k (rm_payload r) /\
+               v2_signature w = s_sign s (firstn k (rm_payload r))) /\
+    (v2_encrypted w = true ->
+       exists a n, decode_aescbc (s_dec s) aescbc_zero (v2_payload w) = Ok a /\ n <= 16 /\
+                   let data := firstn 16 (v2_payload w) ++ cbc_decrypt (s_dec s) (firstn 16 (v2_payload w)) (skipn 16 (v2_payload w)) in
+                   get (length (v2_payload w) - 1) data = Ok n /\
+                   pad_ok (firstn (N.to_nat n) (skipn (length (v2_payload w) - N.to_nat n - 1) data)) 1 = true /\
+                   decode_message message_zero (ae_payload a) = Ok m) /\
+    response_matches o m = true.
+Proof. exact session_accept_sound. Qed.
+
+(* the forged-reply catalogue: flag cleared / another session's ID / anything that does not decode (wrong, short,
+   empty AuthCode; malformed pad; truncation) is "no valid response": the attempt is retried *)
+Theorem C04_flag_cleared : forall s o bs w m,
+  receive (s_sign s) (Some (s_dec s)) bs = Ok (InMessage w m) -> v2_authenticated w = false ->
+  session_verdict s o bs = VRetry.
+Proof. exact unauthenticated_is_rejected. Qed.
+Theorem C04_other_session : forall s o bs w m,
+  receive (s_sign s) (Some (s_dec s)) bs = Ok (InMessage w m) -> v2_id w <> s_local_id s ->
+  session_verdict s o bs = VRetry.
+Proof. exact other_session_is_rejected. Qed.
+Theorem C04_undecodable : forall s o bs,
+  receive (s_sign s) (Some (s_dec s)) bs = Err -> session_verdict s o bs = VRetry.
+Proof. exact undecodable_is_rejected. Qed.
+
+(* changing any single byte (so any single bit) of an accepted response never changes the value: the command
+   completes with the same message, or - spelled out - the integrity algorithm has a collision between the two
+   explicit, distinct signed ranges (premise: AuthCodes have a fixed length, as every HMAC truncation has) *)
+Theorem C04_single_bit : forall s o L pre a a' post m m',
+  (forall x, length (s_sign s x) = L) -> a <> a' ->
+  session_verdict s o (pre ++ a :: post) = VFinal m ->
+  session_verdict s o (pre ++ a' :: post) = VFinal m' ->
+  m = m' \/ exists x x', x <> x' /\ s_sign s x = s_sign s x'.
+Proof. exact single_byte_change_needs_collision. Qed.
